@@ -4,6 +4,7 @@ import fcntl, json, os, re, subprocess, sys, time
 
 prop, tier, seed = sys.argv[1], sys.argv[2], int(sys.argv[3])
 V = os.environ.get("VERIF_ROOT") or os.path.dirname(os.path.dirname(os.path.abspath(__file__)))
+REPO = os.environ.get("VERIF_REPO") or "/repo"
 BUILD = V + "/.build"
 LEAN = V + "/lean"
 t0 = time.time()
@@ -28,7 +29,7 @@ if not os.path.exists(BUILD + "/translator") or os.path.getmtime(BUILD + "/trans
     if rc: machinery("translator does not build:\n" + out)
 for f in os.listdir(LEAN + "/JenVerif/Gen") if os.path.isdir(LEAN + "/JenVerif/Gen") else []:
     pass
-rc, tout = sh("%s/translator -repo /repo -out %s/JenVerif/Gen -harness %s/harness" % (BUILD, LEAN, V))
+rc, tout = sh("%s/translator -repo %s -out %s/JenVerif/Gen -harness %s/harness" % (BUILD, REPO, LEAN, V))
 if rc:
     # /repo's sources do not parse: nothing can be checked
     machinery("translator failed on /repo:\n" + tout)
@@ -93,10 +94,16 @@ if tier == "thorough" and not rc:
     if rcl: machinery("leanchecker rejects the compiled proofs: " + lout[-1500:])
 
 # 3. harness against /repo's working tree
-sh("cp -f /repo/go.sum %s/harness/go.sum" % V)
+sh("cp -f %s/go.sum %s/harness/go.sum" % (REPO, V))
+modflag = ""
+if REPO != "/repo":
+    # an alternative working tree of dave/jennifer (scratch copy): same harness, other replace target
+    sh("cp go.mod %s/go.alt.mod; cp go.sum %s/go.alt.sum; go mod edit -modfile=%s/go.alt.mod -replace github.com/dave/jennifer=%s" % (BUILD, BUILD, BUILD, REPO), cwd=V + "/harness")
+    modflag = "-modfile=%s/go.alt.mod " % BUILD
+os.environ["VERIF_REPO"] = REPO
 race = "-race " if prop == "C09" else ""
 hbin = BUILD + ("/harness-race" if race else "/harness")
-rc2, hout = sh("go build %s-o %s ." % (race, hbin), cwd=V + "/harness", timeout=1800)
+rc2, hout = sh("go build %s%s-o %s ." % (modflag, race, hbin), cwd=V + "/harness", timeout=1800)
 fcntl.flock(lock, fcntl.LOCK_UN)
 if rc2:
     # /repo no longer compiles (or its API lost something the harness relies on)
